@@ -6,11 +6,11 @@ rows = ["### 8.1 Results on the final tree (`tools/seed_matrix.sh`, quick tier, 
 for d in sorted((root / "seeded").iterdir()):
     meta = json.load(open(d / "meta.json"))
     res = json.load(open(d / "result.json")) if (d / "result.json").exists() else {}
-    own = res.get(d.name, {})
+    own = res.get(d.name.split('-')[0], {})
     summ = re.sub(r"\s+", " ", meta.get("summary", ""))[:170].replace("|", "/")
     line = own.get("violation_line", "")
     found = "no (theorem/correspondence named)" if "no-failing-input-found" in line else ("yes" if line else "—")
-    others = [k for k, v in res.items() if k != d.name and v.get("exit") == 1]
+    others = [k for k, v in res.items() if k != d.name.split('-')[0] and v.get("exit") == 1]
     rows.append(f"| {d.name} | {summ}… | {'VIOLATION' if own.get('exit') == 1 else 'not caught' if own else 'n/a'} | {own.get('broken_obligations', '')} | {found} | {', '.join(others)} |")
 p = root / "DESIGN.md"
 s = p.read_text()
